@@ -145,10 +145,17 @@ Definition wwhere_new_weight (m : list bool) (old cur : wval) : option wval :=
   | _, _ => wwhere m old cur
   end.
 
-(** [State.put] only ever updates independent (plain) values *)
+(** [State.put] (state.py:494-507) with a plain [v]: on a plain value as in StateExec.v; on a weighted value (only derived
+    nodes are weighted: the assignment that follows is refused) [old + v] adds to the values and keeps the weights
+    ([WeightedTensor.__add__]), [old.index_put] does not exist (AttributeError: the crash class) *)
 Definition wput (ix : option nat) (v : wval) (acc : bool) (old : wval) : option wval :=
   match v, old with
   | WPlain a, WPlain b => option_map WPlain (xput ix a acc b)
+  | WPlain a, WWt ov ow =>
+      match ix with
+      | None => match xput None a acc (XP ov) with Some (XP r) => Some (WWt r ow) | _ => None end
+      | Some _ => None
+      end
   | _, _ => None
   end.
 
